@@ -69,6 +69,9 @@ func main() {
 	if want("tokens") {
 		runTokenChannels(o, rng.Fork(), rep, tmp)
 	}
+	if want("docs") {
+		runDocsChannels(o, rng.Fork(), rep, tmp)
+	}
 	if want("sys") {
 		runSystemOracle(o, rng.Fork(), rep, tmp)
 	}
